@@ -10,39 +10,71 @@ Value-level semantics connecting the wire specification (`Wire.lean`) with Go va
 -/
 namespace Avro
 
+mutual
 /-- `Schema` ↦ `ASchema` (fuel bounds the nesting depth; `none` for schemas the specification
 does not define: unknown type names, missing objects, negative fixed sizes). -/
 def classify : Nat → Schema → Option ASchema
   | 0, _ => none
   | fuel + 1, s =>
-    let rec fields : List SchemaField → Option (List String × List ASchema)
-      | [] => some ([], [])
-      | f :: fs =>
-        match classify fuel f.type, fields fs with
-        | some a, some (ns, as) => some (f.name :: ns, a :: as)
-        | _, _ => none
-    let rec branches : List Schema → Option (List ASchema)
-      | [] => some []
-      | b :: bs =>
-        match classify fuel b, branches bs with
-        | some a, some as => some (a :: as)
-        | _, _ => none
-    match s.type with
-    | "null" => some .null
-    | "boolean" => some .boolean
-    | "int" => some .int
-    | "long" => some .long
-    | "float" => some .float
-    | "double" => some .double
-    | "bytes" => some .bytes
-    | "string" => some .string
-    | "fixed" => s.object.bind fun o => if o.size < 0 then none else some (.fixed o.size.toNat)
-    | "enum" => s.object.map fun o => .enum o.symbols.length
-    | "record" => s.object.bind fun o => (fields o.fields).map fun (ns, as) => .record ns as
-    | "array" => s.object.bind fun o => (classify fuel o.items).map .array
-    | "map" => s.object.bind fun o => (classify fuel o.values).map .map
-    | "union" => (branches s.union).map .union
-    | _ => none
+    if s.type = "null" then some .null
+    else if s.type = "boolean" then some .boolean
+    else if s.type = "int" then some .int
+    else if s.type = "long" then some .long
+    else if s.type = "float" then some .float
+    else if s.type = "double" then some .double
+    else if s.type = "bytes" then some .bytes
+    else if s.type = "string" then some .string
+    else if s.type = "fixed" then
+      match s.object with
+      | some o => if o.size < 0 then none else some (.fixed o.size.toNat)
+      | none => none
+    else if s.type = "enum" then
+      match s.object with
+      | some o => some (.enum o.symbols.length)
+      | none => none
+    else if s.type = "record" then
+      match s.object with
+      | some o =>
+        match classifyFields fuel o.fields with
+        | some (ns, as) => some (.record ns as)
+        | none => none
+      | none => none
+    else if s.type = "array" then
+      match s.object with
+      | some o =>
+        match classify fuel o.items with
+        | some a => some (.array a)
+        | none => none
+      | none => none
+    else if s.type = "map" then
+      match s.object with
+      | some o =>
+        match classify fuel o.values with
+        | some a => some (.map a)
+        | none => none
+      | none => none
+    else if s.type = "union" then
+      match classifyBranches fuel s.union with
+      | some as => some (.union as)
+      | none => none
+    else none
+
+def classifyFields : Nat → List SchemaField → Option (List String × List ASchema)
+  | 0, _ => none
+  | _ + 1, [] => some ([], [])
+  | fuel + 1, f :: fs =>
+    match classify fuel f.type, classifyFields fuel fs with
+    | some a, some (ns, as) => some (f.name :: ns, a :: as)
+    | _, _ => none
+
+def classifyBranches : Nat → List Schema → Option (List ASchema)
+  | 0, _ => none
+  | _ + 1, [] => some []
+  | fuel + 1, b :: bs =>
+    match classify fuel b, classifyBranches fuel bs with
+    | some a, some as => some (a :: as)
+    | _, _ => none
+end
 
 /-- result of delivering a datum into a Go destination -/
 inductive Fit (α : Type) where
